@@ -2,13 +2,14 @@
 """tools/lock_theorems.py [PID ...] — record the names and statement hashes of the property theorems as they are now
 (lean/theorems.lock.json).  Run after reviewing a delivery; ./check then reports a theorem that disappears or whose
 statement changes as a broken obligation."""
-import sys, json, importlib
-sys.path.insert(0, '/verif'); sys.path.insert(0, '/repo')
+import sys, json, os
+ROOT = os.path.dirname(os.path.dirname(os.path.abspath(__file__)))      # works in a scratch copy too
+sys.path.insert(0, ROOT)
 from harness import core
 pids = [a.upper() for a in sys.argv[1:]] or [f'C{i:02d}' for i in range(1, 21)]
 lock = json.loads(core.LOCK.read_text()) if core.LOCK.exists() else {}
 for pid in pids:
-    src = open(f'/verif/harness/props/{pid.lower()}.py').read()
+    src = open(f'{ROOT}/harness/props/{pid.lower()}.py').read()
     import re
     m = re.search(r'^LEAN_MODULES\s*=\s*(\[.*?\])', src, re.S | re.M)
     modules = eval(m.group(1))
